@@ -358,6 +358,7 @@ Definition spec_nan : spec mact :=
 Definition mspec_of (name : string) : option (spec mact) :=
   if String.eqb name "rec" then Some spec_rec
   else if String.eqb name "flip" then Some spec_flip
+  else if String.eqb name "bigflip" then Some spec_flip   (* the same nodes in a file of 1.3 MB *)
   else if String.eqb name "deaf" then Some spec_deaf
   else if String.eqb name "nan" then Some spec_nan
   else None.                      (* no such file, or a file that does not compile *)
